@@ -232,3 +232,55 @@ Proof.
   - apply IH; [cbn in L1; lia|cbn in L2; lia|].
     intros i c' Hi. replace (Datatypes.S off + i) with (off + Datatypes.S i) by lia. rewrite Hh by (cbn; lia). reflexivity.
 Qed.
+
+(* ---- while loops under a budget ---------------------------------------------------------------------------- *)
+Lemma while_fuel_false {S : Type} (n : nat) (c : S -> bool) (f : S -> S) (s : S) :
+  c s = false -> while_fuel n c f s = (s, true).
+Proof. intros H. destruct n; cbn [while_fuel]; rewrite H; reflexivity. Qed.
+
+Lemma while_fuel_step {S : Type} (n : nat) (c : S -> bool) (f : S -> S) (s : S) :
+  c s = true -> while_fuel (Datatypes.S n) c f s = while_fuel n c f (f s).
+Proof. intros H. cbn [while_fuel]. rewrite H. reflexivity. Qed.
+
+(* the generated closures may be replaced by extensionally equal ones *)
+Lemma while_fuel_ext {S : Type} (c c' : S -> bool) (f f' : S -> S) :
+  (forall s, c s = c' s) -> (forall s, f s = f' s) ->
+  forall n s, while_fuel n c f s = while_fuel n c' f' s.
+Proof.
+  intros Hc Hf n. induction n as [|n IH]; intros s; cbn [while_fuel]; rewrite Hc; [reflexivity|].
+  destruct (c' s); [|reflexivity]. rewrite Hf. apply IH.
+Qed.
+
+(* a result with ok = true does not depend on the size of the budget *)
+Lemma while_fuel_mono {S : Type} (c : S -> bool) (f : S -> S) :
+  forall n s r, while_fuel n c f s = (r, true) -> forall m, n <= m -> while_fuel m c f s = (r, true).
+Proof.
+  induction n as [|n IH]; intros s r H m Hm.
+  - cbn [while_fuel] in H. injection H as <- Hc. apply while_fuel_false. destruct (c s); [discriminate|reflexivity].
+  - destruct m as [|m]; [lia|]. cbn [while_fuel] in *. destruct (c s); [|exact H]. apply (IH _ _ H). lia.
+Qed.
+
+(* ---- cursors: reading / writing at the end of a written prefix, truncation --------------------------------- *)
+Lemma Z_eqb_of_nat (i j : nat) : (Z.of_nat i =? Z.of_nat j)%Z = Nat.eqb i j.
+Proof. destruct (Nat.eqb_spec i j) as [->|H]; [apply Z.eqb_refl|]. apply Z.eqb_neq. lia. Qed.
+
+Lemma Z_ltb_of_nat (i j : nat) : (Z.of_nat i <? Z.of_nat j)%Z = Nat.ltb i j.
+Proof. destruct (Nat.ltb_spec i j); [apply Z.ltb_lt|apply Z.ltb_ge]; lia. Qed.
+
+Lemma Z_of_nat_succ (n : nat) : (Z.of_nat n + 1)%Z = Z.of_nat (Datatypes.S n).
+Proof. lia. Qed.
+
+Lemma znth_app_mid {A : Type} (d : A) (p l : list A) (x : A) : znth d (p ++ x :: l) (Z.of_nat (length p)) = x.
+Proof. rewrite znth_of_nat. apply nth_middle. Qed.
+
+Lemma zset_app_mid {A : Type} (p l : list A) (x v : A) : zset (p ++ x :: l) (Z.of_nat (length p)) v = p ++ v :: l.
+Proof. rewrite zset_of_nat. rewrite set_nth_nat_app by discriminate. reflexivity. Qed.
+
+Lemma zslice_to_app {A : Type} (p l : list A) : zslice_to (p ++ l) (Z.of_nat (length p)) = p.
+Proof.
+  unfold zslice_to. destruct (Z.ltb_spec (Z.of_nat (length p)) 0); [lia|].
+  rewrite Nat2Z.id. rewrite firstn_app, Nat.sub_diag, firstn_all. cbn [firstn]. apply app_nil_r.
+Qed.
+
+Lemma zslice_to_nonneg {A : Type} (l : list A) (n : nat) : zslice_to l (Z.of_nat n) = firstn n l.
+Proof. unfold zslice_to. destruct (Z.ltb_spec (Z.of_nat n) 0); [lia|]. rewrite Nat2Z.id. reflexivity. Qed.
